@@ -383,7 +383,16 @@ func Names() []*Schema {
 	// (a field `type_` next to `type` would collide after the rewrite, but proto3 rejects that pair:
 	// names that are equal after removing underscores and lower-casing conflict in proto3)
 	s.Msgs = []Msg{n0, n1}
-	return []*Schema{s}
+	// a second file (other package) whose fields are spelled like the REWRITTEN reserved names, without the
+	// reserved siblings: its output must not depend on whether the first file is generated before it
+	u := corpusSchema("nu")
+	u0 := Msg{Name: "U0", OneofNames: []string{"set_"}}
+	for i, nm := range []string{"type_", "get_", "range_", "new_field_", "descriptor_", "has_"} {
+		u0.Fields = append(u0.Fields, Field{Num: i + 1, Name: nm, Kind: allKinds[(i*5)%len(allKinds)], Shape: Singular})
+	}
+	u0.Fields = append(u0.Fields, Field{Num: 10, Name: "oa", Kind: Int32, Shape: Oneof, Group: 0}, Field{Num: 11, Name: "ob", Kind: String, Shape: Oneof, Group: 0})
+	u.Msgs = []Msg{u0}
+	return []*Schema{s, u}
 }
 
 // Graph: well-known types in every shape, messages imported from two other Go packages, nesting three
@@ -508,7 +517,11 @@ func Nested() *descriptorpb.FileDescriptorProto {
 	return &descriptorpb.FileDescriptorProto{
 		Name: proto.String("verifcorpus/nest/nest.proto"), Package: proto.String("vc.nest"), Syntax: proto.String("proto3"),
 		Options:     &descriptorpb.FileOptions{GoPackage: proto.String("github.com/cosmos/cosmos-proto/internal/verifcorpus/nest")},
-		MessageType: []*descriptorpb.DescriptorProto{outer, other, flat, resource},
+		MessageType: []*descriptorpb.DescriptorProto{outer, other, flat, resource,
+			// a message WITHOUT fields used as a namespace for nested declarations (two levels)
+			{Name: proto.String("Namespace"), NestedType: []*descriptorpb.DescriptorProto{
+				reservedMsg("Decl"),
+				{Name: proto.String("Sub"), NestedType: []*descriptorpb.DescriptorProto{reservedMsg("Deep")}}}}},
 		EnumType:    []*descriptorpb.EnumDescriptorProto{enum("Top", "TOP_ZERO", "TOP_ONE")},
 	}
 }
@@ -682,4 +695,33 @@ func Required() *descriptorpb.FileDescriptorProto {
 		Options:     &descriptorpb.FileOptions{GoPackage: proto.String("github.com/cosmos/cosmos-proto/internal/verifcorpus/req")},
 		MessageType: []*descriptorpb.DescriptorProto{tree, branch, holder, plain},
 	}
+}
+
+// SamePkgSplit: like SamePkg, but every file is generated by its OWN plugin invocation (one protoc run per file)
+// and the importing file's Go file sorts BEFORE the imported ones (its Go init runs first).
+func SamePkgSplit() []*Schema {
+	var out []*Schema
+	mk := func(id string, msgs []Msg, imports []string) *Schema {
+		sc := corpusSchema(id)
+		sc.Dir = "sq"
+		sc.Package = "vc.sq"
+		sc.GoPkg = "github.com/cosmos/cosmos-proto/internal/verifcorpus/sq"
+		sc.NoEnum = id != "sqb"
+		sc.Msgs = msgs
+		sc.Imports = imports
+		return sc
+	}
+	for i, n := range []string{"sqb", "sqc", "sqd", "sqe"} {
+		out = append(out, mk(n, []Msg{{Name: "Q" + string(rune('A'+i)), Fields: []Field{{Num: 1, Kind: allKinds[i*3+1], Shape: Singular}, {Num: 2, Kind: Enum, Shape: Repeated, Packed: true}}}},
+			map[bool][]string{true: nil, false: {"verifcorpus/sq/sqb.proto"}}[n == "sqb"]))
+	}
+	out = append(out, mk("sqa", []Msg{{Name: "First", Fields: []Field{
+		{Num: 1, IsMsg: true, Extern: "vc.sq.QA", Shape: Singular},
+		{Num: 2, IsMsg: true, Extern: "vc.sq.QB", Shape: Repeated},
+		{Num: 3, IsMsg: true, Extern: "vc.sq.QC", Shape: Map, Key: String},
+		{Num: 4, IsMsg: true, Extern: "vc.sq.QD", Shape: Oneof, Group: 0},
+		{Num: 5, Kind: Enum, Shape: Oneof, Group: 0},
+		{Num: 6, Kind: Enum, Shape: Singular},
+	}}}, []string{"verifcorpus/sq/sqb.proto", "verifcorpus/sq/sqc.proto", "verifcorpus/sq/sqd.proto", "verifcorpus/sq/sqe.proto"}))
+	return out
 }
